@@ -87,6 +87,7 @@ pub struct World {
     reask_causes: u32,
     wait_timers: Vec<usize>,
     pending_requests: i64,
+    in_install: bool,
     cup_keys: Option<(u64, Vec<u64>)>,
     pub panicked: Option<String>,
 }
@@ -503,7 +504,9 @@ impl Installer for Inst {
             w.log(format!("AInstaller (IPerform {}) (IPerformed {})", g_str(&plan.id), ga), format!("installer perform {} -> {:?}", plan.id, a));
             a
         };
+        let wi = self.w.clone();
         async move {
+            wi.lock().unwrap().in_install = true;
             let mut results = vec![];
             if ans.is_none() {
                 // script exhausted: the default answer installs everything (Model/Env.v pop_perform)
@@ -529,6 +532,7 @@ impl Installer for Inst {
                     });
                 }
             }
+            wi.lock().unwrap().in_install = false;
             ((), results)
         }
         .boxed_local()
@@ -1091,6 +1095,7 @@ pub fn run_sm(c: &Value) -> RunResult {
         reask_causes: 0,
         wait_timers: vec![],
         pending_requests: 0,
+        in_install: false,
         cup_keys: if cupv.is_null() { None } else { Some((cupv["latest"].as_u64().unwrap(), arr(&cupv, "hist").iter().filter_map(|x| x.as_u64()).collect())) },
         panicked: None,
     }));
@@ -1242,7 +1247,17 @@ fn drive(c: &Value, world: W) -> bool {
                 if flag.0.swap(false, Ordering::SeqCst) {
                     continue;
                 }
-                // blocked: apply the next stimulus
+                // blocked: nothing the machine awaits is outstanding except timers and requests
+                {
+                    let mut w = world.lock().unwrap();
+                    if w.pending_requests > 0 {
+                        w.violate("a start-update-check request stays unanswered although the machine is blocked in a wait (a request must wake it without any timer firing)");
+                    }
+                    if w.in_install {
+                        w.violate("the flow is blocked inside an install although the installer awaits nothing but the delivery of its progress reports");
+                    }
+                }
+                // apply the next stimulus
                 if si >= stimuli.len() {
                     break;
                 }
